@@ -370,7 +370,7 @@ def check_property(prop, tier='quick', seed=0, only=None, verbose=False):
           'assumptions': assumptions + ['float mode R = machine arithmetic treated as mathematical (contracts marked R)'
                                         if any(r['float_mode'] == 'R' for r in results) else 'no real-arithmetic abstraction used'],
           'wall_s': round(time.time() - t0, 2), 'violations': violations}
-    if not only:
+    if not only and not os.environ.get('VERIF_NO_EVIDENCE'):
         os.makedirs(os.path.join(VERIF_ROOT, 'evidence'), exist_ok=True)
         json.dump(ev, open(os.path.join(VERIF_ROOT, 'evidence', prop + '.json'), 'w'), indent=1)
     print('%s tier=%s contracts=%d paths=%d obligations=%d discharged=%d backends=%s concordance=%d wall=%.1fs exit=%d' % (
